@@ -452,7 +452,13 @@ impl<'a, 'b> Printer<'a, 'b> {
                 0 => " ".to_string(),
                 1 => "\t".to_string(),
                 2 => format!("\n{}", "  ".repeat(self.indent)),
-                3 => "  \n\n ".to_string(),
+                3 => {
+                    if t.chance(1, 6) {
+                        "\r\n".to_string()
+                    } else {
+                        "  \n\n ".to_string()
+                    }
+                }
                 _ => {
                     let c = COMMENTS[t.choose(COMMENTS.len())];
                     format!("{}\n", c)
